@@ -31,7 +31,7 @@ def requirements(tier):
     return {"min_counters": {"op_+": 5000 * k, "op_*": 3000 * k, "op_-": 1000 * k, "op_/": 1000 * k, "hourly_misaligned_checked": 800 * k,
                              "incompatible_dimension_pairs": 300 * k, "empty_neutral_checked": 300 * k, "empty_absorbing_checked": 300 * k,
                              "commutativity_checked": 1000 * k, "sum_law_checked": 300 * k, "op_np_compared_with": 300 * k,
-                             "op_shift": 200 * k, "op_ceil": 200 * k, "internal_calls_in_system_workloads": 2000},
+                             "op_shift": 200 * k, "op_ceil": 200 * k, "op_round": 200 * k, "internal_calls_in_system_workloads": 2000},
             "required_classes": ["pairs", "system", "tz_aware", "naive", "disjoint_index", "gapped_index"]}
 
 
@@ -119,12 +119,12 @@ def run_pairs(case, rnd, E):
         for x in (a, b):
             if isinstance(x, E.ExplainableHourlyQuantities):
                 attempt(lambda: x.sum()); attempt(lambda: x.max()); attempt(lambda: x.mean()); attempt(lambda: x.abs()); attempt(lambda: x.ceil())
-                attempt(lambda: -x); attempt(lambda: x.copy())
+                attempt(lambda: -x); attempt(lambda: x.copy()); attempt(lambda: round(x, rnd.choice([0, 2, 4])))
                 attempt(lambda: x.return_shifted_hourly_quantities(E.ExplainableQuantity(rnd.choice([0, 59, 60, 61, 150]) * E.u.min, "shift")))
                 u1, u2 = next(p for p in UNITS if str(x.unit) in (str(E.u(p[0]).units), str(E.u(p[1]).units)))
                 attempt(lambda: x.to(E.u(rnd.choice([u1, u2])).units))
             elif isinstance(x, E.ExplainableQuantity):
-                attempt(lambda: x.ceil()); attempt(lambda: x.copy())
+                attempt(lambda: x.ceil()); attempt(lambda: x.copy()); attempt(lambda: round(x, rnd.choice([0, 2, 4])))
         if ha or isinstance(a, E.EmptyExplainableObject):
             if hb or isinstance(b, E.EmptyExplainableObject):
                 cmp_ = rnd.choice(["max", "min"])
